@@ -8,13 +8,15 @@
 using namespace opentelemetry;
 namespace m = opentelemetry::sdk::metrics;
 #ifndef INTERFERE
-#define INTERFERE 0      // 0 none; 1 a measurement is recorded and a ForceFlush ticket taken while the cycle is inside Export
+#define INTERFERE 0      // 0 none; 1 a measurement is recorded and a ForceFlush ticket taken while the cycle is inside Export;
+                         // 2 another thread may call Shutdown on the reader while the worker's cycle is inside Export
 #endif
 #ifndef TICKETS
 #define TICKETS 0        // 0 no flush requested; 2 one ForceFlush is waiting when the cycle starts
 #endif
 static m::PeriodicExportingMetricReader *g_reader; static bool g_run_threads;
 static int g_recorded, g_snapshot, g_exported_upto, g_exports, g_produce, g_exp_flush, g_exp_shutdown; static bool g_export_after_shutdown;
+static int g_in_export; extern "C" { extern uint32_t verif_thread_id; }
 static uint64_t g_ticket[2]; static int g_issued_at[2]; static int g_ntickets;
 extern "C" void verif_thread_run(std::thread::_State *s) { if (g_run_threads) s->_M_run(); }
 #ifndef WMODE
@@ -23,6 +25,7 @@ extern "C" void verif_thread_run(std::thread::_State *s) { if (g_run_threads) s-
 static int g_worker_steps; static bool g_worker_may_run;   // set by the entries in which a caller blocks on the periodic worker (not by the collect thread's own join)
 extern "C" void verif_worker_step(uint32_t why) {
   if (!g_reader) return;
+  if (why == 2 && g_in_export && verif_thread_id == 1) __VERIFIER_assume(false);   // the joined worker is still inside Export: the joiner blocks (this branch of the schedule ends)
   // why 1: the caller is inside a condition wait; why 2: the caller joins the worker (which may still be finishing a cycle)
   if (WMODE == 1 && g_worker_may_run && g_worker_steps < 1) { g_worker_steps++; g_reader->CollectAndExportOnce(); }
 }
@@ -33,8 +36,14 @@ struct Prod : m::MetricProducer {
 };
 struct Exp : m::PushMetricExporter {
   sdk::common::ExportResult Export(const m::ResourceMetrics &) noexcept override {
+    VASSERT(g_in_export == 0, "periodic reader: Export is not entered while a previous Export on the exporter is still running");
+    g_in_export++;
     g_exports++; g_exported_upto = g_snapshot; if (g_exp_shutdown) g_export_after_shutdown = true;
     if (INTERFERE == 1 && g_exports == 1) { g_recorded++; take_ticket(); }
+    if (INTERFERE == 2 && g_exports == 1 && nondet_bool()) {   // a second thread shuts the reader down now; joining the worker blocks until this cycle is over
+      verif_thread_id = 1; g_reader->Shutdown(std::chrono::microseconds(1000)); verif_thread_id = 0;
+    }
+    g_in_export--;
     return nondet_bool() ? sdk::common::ExportResult::kSuccess : sdk::common::ExportResult::kFailure;
   }
   m::AggregationTemporality GetAggregationTemporality(m::InstrumentType) const noexcept override { return m::AggregationTemporality::kDelta; }
